@@ -13,7 +13,7 @@ Not supported (raises Unsupported): pointers other than string literals passed t
 symbolic array indices on the left of an assignment.
 
 Effects and undefined behaviour are recorded as EVENTS (kind, path condition): 'output' (printf / puts / putchar / fprintf to
-stdout), 'abort' (exit / abort / __assert_fail), 'ub-shift' (count >= width of the promoted left operand), 'ub-div0',
+stdout), 'abort' (exit / abort / __assert_fail), 'ub-shift' (count >= width of the promoted left operand), 'ub-div0', 'ub-overflow' (signed + - * of the promoted type),
 'uninit' (read of an uninitialised local).  Oversized shift counts are given the x86-64 value (count taken modulo the operand
 width): an ASSUMPTION about the target, stated in the evidence.
 """
@@ -452,6 +452,12 @@ class Interp(object):
             return Val(z3.If(c, bv(1, rt.width), bv(0, rt.width)), rt)
         a, b = self.cast(a, rt), self.cast(b, rt)
         x, y = a.t, b.t
+        if op in ("+", "-", "*") and rt.signed:
+            # signed overflow of the promoted operation is undefined behaviour (e.g. uint16_t * uint16_t is an int product)
+            ok = {"+": z3.And(z3.BVAddNoOverflow(x, y, True), z3.BVAddNoUnderflow(x, y)),
+                  "-": z3.And(z3.BVSubNoOverflow(x, y), z3.BVSubNoUnderflow(x, y, True)),
+                  "*": z3.And(z3.BVMulNoOverflow(x, y, True), z3.BVMulNoUnderflow(x, y))}[op]
+            self.event("ub-overflow", z3.And(state.pc, z3.Not(ok)), "signed overflow of %s at %d bits" % (op, rt.width))
         if op == "+":
             r = x + y
         elif op == "-":
